@@ -94,6 +94,8 @@ def err_must_exit(fn, call_block, sink_pred):
 def run(ctx):
     core, cli = ctx.core, ctx.cli
     ctx.not_decided += ["clap's argument handling", "what is_terminal() returns", "REPL interleavings"]
+    from rules import c06
+    c06.output_file_rule(ctx, "C19.R5", ctx.cli)
     main = M.Fn(cli.mir_fn("blots::main"), "blots::main")
     # ---------------- R1 exit status <=> outputs object
     ctx.rule("C19.R1", "on every Err edge of parsing / evaluation / validation / input parsing the process must reach exit(!=0) without emitting outputs; outputs are written only after success; nothing exits non-zero after writing outputs", floor=8)
